@@ -193,10 +193,14 @@ class KernelEval:
         if not s.repo.has(key):
             raise AnalysisError(f"kernel {key} not found")
         st = St()
+        from . import loops as _loops
+        _loops.STRICT_RECURRENCES[0] = True
         try:
             r = s.I.call_key(key, kernel_args(fam, mode, chans), {} if chunk is None else {"_chunk": X.const(chunk)}, st)
         except Unknown as ex:
             r = Opaque(f"interpreter: {ex}")
+        finally:
+            _loops.STRICT_RECURRENCES[0] = False
         s.cache[ck] = (r, st)
         return r, st
 
